@@ -9,6 +9,7 @@ from . import gateway_units as gu
 from .common import BASE_TRUSTED
 
 PROP = "C14"
+ASSUMPTION_CHECKS = ['A-MM', 'A-JSON']
 MIN_OBLIGATIONS = 10
 TRUSTED = BASE_TRUSTED + [
     "A-FS: aiofiles.open raises FileNotFoundError/OSError or yields a handle; read() returns the content or raises OSError/UnicodeDecodeError",
